@@ -111,6 +111,20 @@ fn check(input: &str, rng: &mut Rng, st: &mut Stats, exhaustive_two: bool) {
             }
         }
     }
+    // (b') profile: a diagnostic option too (it makes the library print timing tables, nothing else)
+    {
+        let mut o = base;
+        o.profile = true;
+        st.count("profile_cases");
+        if let Ok(r) = result(input, &[], &o, None) {
+            let rep = json!({"kind": "profile", "input": input});
+            if r.toks != reference.toks {
+                st.violation(&format!("profile:tokens:{cls}"), &format!("xml input={}: default vs profile: {}", show(input), tokdiff(&reference.toks, &r.toks)), rep);
+            } else if r.dump != reference.dump {
+                st.violation(&format!("profile:tree:{cls}"), &format!("xml input={}: default vs profile: {}", show(input), dump_diff(&reference.dump, &r.dump)), rep);
+            }
+        }
+    }
     // (c) schedules
     let mut schedules: Vec<Vec<usize>> = vec![];
     if exhaustive_two || n <= 40 {
